@@ -108,7 +108,11 @@ func featuresOf(v *ref.Value) jsonFeatures {
 // checkCanon runs every C01 monitor on one valid text. Returns the canonical bytes.
 func checkCanon(c *mon.Ctx, v *ref.Value, text []byte) []byte {
 	f := featuresOf(v)
-	out, err := gmsl.CanonicalJSON(text)
+	gin, intact := mon.Guarded(text)
+	out, err := gmsl.CanonicalJSON(gin)
+	if d := intact(); d != "" {
+		c.Failf("canon:callers-buffer-written", "CanonicalJSON(%q): %s", text, d)
+	}
 	if err != nil {
 		c.Failf("canon:rejects-valid", "CanonicalJSON(%q) = error %v", text, err)
 		return nil
@@ -149,7 +153,11 @@ func checkCanon(c *mon.Ctx, v *ref.Value, text []byte) []byte {
 	if err != nil || !bytes.Equal(out2, out) {
 		c.Failf("canon:not-idempotent", "CanonicalJSON(%q) = %q, err %v", out, out2, err)
 	}
-	av := gmsl.CanonicalJSONAssumeValid(text)
+	gin2, intact2 := mon.Guarded(text)
+	av := gmsl.CanonicalJSONAssumeValid(gin2)
+	if d := intact2(); d != "" {
+		c.Failf("canon:callers-buffer-written", "CanonicalJSONAssumeValid(%q): %s", text, d)
+	}
 	if !bytes.Equal(av, out) {
 		c.Failf("canon:assume-valid-differs", "CanonicalJSONAssumeValid(%q) = %q, CanonicalJSON = %q", text, av, out)
 	}
